@@ -174,3 +174,20 @@ CHECKS["C07"] = dict(
           "distinct_nontrivial = ordered pairs of distinct non-empty logical values."),
     assumptions=["nested-sequence reference semantics (harness/cmpmc.cpp m_eq/m_less)", "values are written into each representation by plain indexing (C01's business)", "g++ 12 -O0 ASan+UBSan"],
 )
+
+CHECKS["C16"] = dict(
+    title="const-ness propagation", level="model_checking", engine="E3",
+    claim=("Explicit-state exploration of the graph of access paths at compile time: a state is a real C++ expression type (with value category) plus a const-taint bit, a transition applies one of 48 accessors in "
+           "unevaluated context, template instantiation memoisation is the visited set; from 10 roots per rank (array, array const, static_array, array_ref, views held by auto&&, auto& and auto const&) to depth 3 "
+           "(thorough 4). Every element-reference/pointer state reached through a tainted path must be non-modifiable (safety); paths from mutable roots must not lose modifiability (completeness); structural "
+           "clauses (no copy-construction/rebinding/resizing of views) are static probes. The compiler's type system evaluates every transition on the real headers."),
+    jobs=lambda tier: [Job("typemc", cfg="dbg", defs=["-DTM_D=%d" % d, "-DTM_DEPTH=%d" % (3 if tier == "quick" else 4)], args=["--tier=" + tier]) for d in (1, 2, 3)],
+    extra=lambda tier: __import__("probes").c16_probes(tier),
+    rule=("states = (expression type, taint); accessors: [0], (0), (0,0), (_), ({0,1}), (), begin/end/cbegin/cend, *, it+0, it[0], ->, elements() and its begin/[0]/front/back, celements, home() and [0], front/back, "
+          "base(), data_elements(), rotated/unrotated/transposed/~/sliced/strided/taked/dropped/reversed/chunked/diagonal/partitioned/flatted, std::as_const, .as_const(), std::move, unary + (clears taint: independent copy). "
+          "CanonW(state) = a modifiable element is reachable by canonical element accessors only; a safety culprit is a tainted edge from a non-CanonW state to a CanonW state (or a const root that is CanonW); a "
+          "completeness gap is an untainted edge from a CanonW state to a state with canonical evidence that is not CanonW. distinct_nontrivial = element-reference/pointer states."),
+    assumptions=["g++ 12 type system", "members with deduced return types whose bodies do not compile for some rank are kept out by rank guards on the accessor (diagonal/flatted/transposed need D>=2)",
+                 "whole-view mutators (assignment, fill, swap, elements()=, writes through begin/home/elements) on const paths are decided by separate compile probes (one translation unit each, -fsyntax-only): "
+                 "every (mutator, path, const root) statement must be ill-formed, and is only counted when its mutable twin compiles"],
+)
